@@ -997,13 +997,5 @@ func c04lit(c *an.Ctx) {
 		})
 		c.Check(ok, "C04.lit", "(*NumberNode).simplifyComplex", f.Pos(), "integer views of a complex literal exist only when the float view does", "simplifyComplex can set IsInt/IsUint without IsFloat")
 	}
-	if f := c.Fn("C04.lit", "isTrue"); f != nil {
-		ok := false
-		if len(f.Body.List) == 1 {
-			if ret, isRet := f.Body.List[0].(*ast.ReturnStmt); isRet && an.Norm(f, ret.Results[0]) == "($p0.IsValid() && !$p0.IsZero())" {
-				ok = true
-			}
-		}
-		c.Check(ok, "C04.lit", "isTrue", f.Pos(), "truthiness is `valid and not the zero value`", "isTrue is not v.IsValid() && !v.IsZero(): false/0/\"\"/nil are no longer exactly the falsy values")
-	}
+	truthRule(c, "C04.lit")
 }
